@@ -43,15 +43,45 @@ class AppFlow:
                         and all(isinstance(e, ast.Name) for e in t.elts[:3])):
                     self.responder, self.params, self.resource = [e.id for e in t.elts[:3]]
                     self.route_stmt = n
+        if self.req_stack is None:
+            # the prepared stacks may also be picked by index: `mw = self._middleware; a = mw[0]; b = mw[1]; c = mw[2]`
+            # (or `self._middleware[i]` directly)
+            holders = {x.targets[0].id for x in walk_self(fn) if isinstance(x, ast.Assign) and len(x.targets) == 1
+                       and isinstance(x.targets[0], ast.Name) and is_self_attr(strip_await(x.value), '_middleware')}
+            by_idx = {}
+            for x in walk_self(fn):
+                if isinstance(x, ast.Assign) and len(x.targets) == 1 and isinstance(x.targets[0], ast.Name) \
+                        and isinstance(x.value, ast.Subscript) and isinstance(x.value.slice, ast.Constant) \
+                        and isinstance(x.value.slice.value, int) \
+                        and (is_self_attr(x.value.value, '_middleware')
+                             or (isinstance(x.value.value, ast.Name) and x.value.value.id in holders)):
+                    by_idx.setdefault(x.value.slice.value, set()).add(x.targets[0].id)
+            if sorted(by_idx) == [0, 1, 2] and all(len(v) == 1 for v in by_idx.values()):
+                self.req_stack, self.rsrc_stack, self.resp_stack = [next(iter(by_idx[i])) for i in (0, 1, 2)]
         if None in (self.req_stack, self.responder):
             raise AnchorError('%s: cannot find the unpacking of self._middleware / self._get_responder()' % qual)
         # loops
         self.req_loops: List[ast.AST] = []
         self.rsrc_loops: List[ast.AST] = []
         self.resp_loops: List[ast.AST] = []
+        def _once_bound(name):
+            binds = [a for a in walk_self(fn) if isinstance(a, ast.Assign) and len(a.targets) == 1
+                     and isinstance(a.targets[0], ast.Name) and a.targets[0].id == name]
+            stores = sum(1 for x in walk_self(fn) if isinstance(x, ast.Name) and x.id == name and isinstance(x.ctx, (ast.Store, ast.Del)))
+            return binds[0].value if len(binds) == 1 and stores == 1 else None
+
+        def _iter_expr(it):
+            # a loop may run over a local bound once to the stack expression (`stack = a or b; for m in stack:`)
+            if isinstance(it, ast.Name) and it.id not in (self.req_stack, self.rsrc_stack, self.resp_stack):
+                v = _once_bound(it.id)
+                if v is not None:
+                    return v
+            return it
+
+        self._iter_expr = _iter_expr
         for n in walk_self(fn):
             if isinstance(n, (ast.For, ast.AsyncFor)):
-                names = {x.id for x in walk_self(n.iter) if isinstance(x, ast.Name)}
+                names = {x.id for x in walk_self(_iter_expr(n.iter)) if isinstance(x, ast.Name)}
                 if self.req_stack in names:
                     self.req_loops.append(n)
                 elif self.rsrc_stack in names:
@@ -87,7 +117,7 @@ class AppFlow:
             raise AnchorError('%s: process_response call with 4 positional args not found' % qual)
         # dependent stack: the other name in the response loop's iter
         self.dep_stack = None
-        for x in walk_self(rl.iter):
+        for x in walk_self(self._iter_expr(rl.iter)):
             if isinstance(x, ast.Name) and x.id != self.resp_stack:
                 self.dep_stack = x.id
         # render region: the try statement containing the body rendering
@@ -103,11 +133,70 @@ class AppFlow:
 
     # ------------------------------------------------------------ labelling
     def _is_complete(self, e):
+        if isinstance(e, ast.Name):
+            ok = getattr(self, '_cs_nodes', None)
+            if ok is None:
+                ok = self._cs_nodes = {id(x) for name, tests in self._complete_snapshots().items() for t in tests
+                                       for x in ast.walk(t) if isinstance(x, ast.Name) and x.id == name}
+            return id(e) in ok
         return isinstance(e, ast.Attribute) and e.attr == 'complete'
+
+    def _handle_locals(self):
+        """locals that only ever hold the outcome of `self._handle_exception(...)`:
+        `handled = self._handle_exception(...); if not handled: raise` reads like
+        `if not self._handle_exception(...): raise`"""
+        hl = getattr(self, '_hl', None)
+        if hl is None:
+            good, bad = set(), set()
+            for a in walk_self(self.func.node):
+                tg, val = [], None
+                if isinstance(a, ast.Assign):
+                    tg, val = a.targets, a.value
+                elif isinstance(a, (ast.AnnAssign, ast.AugAssign, ast.NamedExpr)):
+                    tg, val = [a.target], getattr(a, 'value', None)
+                elif isinstance(a, (ast.For, ast.AsyncFor)):
+                    tg, val = [a.target], None
+                for t in tg:
+                    for x in ast.walk(t):
+                        if isinstance(x, ast.Name):
+                            v = strip_await(val) if val is not None else None
+                            if isinstance(a, ast.Assign) and isinstance(t, ast.Name) and isinstance(v, ast.Call) \
+                                    and dotted(v.func) == 'self._handle_exception':
+                                good.add(x.id)
+                            else:
+                                bad.add(x.id)
+            hl = self._hl = good - bad
+        return hl
 
     def _is_handle(self, e):
         e = strip_await(e)
+        if isinstance(e, ast.Name) and e.id in self._handle_locals():
+            return True
         return isinstance(e, ast.Call) and dotted(e.func) == 'self._handle_exception'
+
+    def _complete_snapshots(self):
+        """{local name: [test statements]}: `c = resp.complete` immediately followed (next statement of the same block)
+        by an `if`/`while` whose test reads c, c bound nowhere else: at that test c IS resp.complete (nothing ran in
+        between).  A snapshot tested any later is not looked through."""
+        cs = getattr(self, '_cs', None)
+        if cs is None:
+            cs = {}
+            stores = {}
+            for x in walk_self(self.func.node):
+                if isinstance(x, ast.Name) and isinstance(x.ctx, (ast.Store, ast.Del)):
+                    stores[x.id] = stores.get(x.id, 0) + 1
+            for blk in walk_self(self.func.node):
+                for field in ('body', 'orelse', 'finalbody'):
+                    stmts = getattr(blk, field, None)
+                    if not isinstance(stmts, list):
+                        continue
+                    for a, b in zip(stmts, stmts[1:]):
+                        if isinstance(a, ast.Assign) and len(a.targets) == 1 and isinstance(a.targets[0], ast.Name) \
+                                and isinstance(a.value, ast.Attribute) and a.value.attr == 'complete' and stores.get(a.targets[0].id) == 1 \
+                                and isinstance(b, (ast.If, ast.While)):
+                            cs.setdefault(a.targets[0].id, []).append(b.test)
+            self._cs = cs
+        return cs
 
     def _is_resource(self, e):
         return isinstance(e, ast.Name) and e.id == self.resource
@@ -156,6 +245,9 @@ class AppFlow:
             tgts = n.ast.targets if isinstance(n.ast, ast.Assign) else [n.ast.target]
             if any(isinstance(t, ast.Name) and t.id == self.flag for t in tgts):
                 v = n.ast.value
+                while isinstance(v, ast.UnaryOp) and isinstance(v.op, ast.Not) and isinstance(v.operand, ast.Constant) \
+                        and isinstance(v.operand.value, bool):
+                    v = ast.Constant(value=not v.operand.value)  # `not True` / `not False` folded
                 if isinstance(v, ast.Constant) and v.value is True:
                     out.append('OK')
                 elif isinstance(v, ast.Constant) and v.value is False:
